@@ -332,6 +332,19 @@ class Histories(History):
                     e2 = None
                 except Exception as exc:   # noqa
                     r2, e2 = None, type(exc).__name__
+                # System.solve is documented as createPRISM followed by PRISM.solve with the same arguments: an absolute anchor, so that
+                # a defect that hits the edited and the fresh System alike is not hidden by comparing them with each other
+                try:
+                    r3 = S.quiet(S.quiet(S.build_system(m).createPRISM).solve, method='krylov', options=opts)
+                    e3 = None
+                except Exception as exc:   # noqa
+                    r3, e3 = None, type(exc).__name__
+                if e2 != e3:
+                    out.fail(sig + 'system-solve-is-not-create-then-solve', 'System.solve() %s, createPRISM().solve() %s' % (
+                        'raised ' + e2 if e2 else 'returned', 'raised ' + e3 if e3 else 'returned'))
+                elif r2 is not None and np.asarray(r2.x).tobytes() != np.asarray(r3.x).tobytes():
+                    out.fail(sig + 'system-solve-is-not-create-then-solve', 'System.solve() and createPRISM().solve() give different results (max |dx| = %.3g)' % (
+                        float(np.nanmax(np.abs(np.asarray(r2.x) - np.asarray(r3.x))))))
                 if e1 != e2:
                     out.fail(sig + 'edited-system-solve-differs-from-fresh-system', 'solve() on the edited System %s, on a fresh System %s' % (
                         'raised ' + e1 if e1 else 'returned', 'raised ' + e2 if e2 else 'returned'))
